@@ -1,0 +1,41 @@
+//go:build verif
+
+package timers
+
+// Machine-checked contracts (govc, see /verif/DESIGN.md). Comment-only file.
+
+// ---- C40: after a Reset the new-epoch handlers fire on the first UpdateTime whose block
+// time reaches the scheduled end (and only then, and not again until the next Reset); each
+// sub-epoch handler fires when its own deadline is reached and it has not fired since the
+// Reset. Handlers are opaque calls; they are assumed not to touch the timer (they cannot
+// re-enter it: its mutex is held). 64-bit vector arithmetic: the deadline formulas are the
+// code's own uint64 expressions, so a different order of * and / is a different value.
+
+//@ callrule epoch_handlers_fire_when_due in (*EpochTimers).UpdateTime
+//@   property C40
+//@   callee dynamic:EpochTimers.eHandlers[]
+//@   pureeffect
+//@   requires [epoch_end_reached_and_not_fired_since_reset] !old(et.done) && old(et.nextTickAt) <= curr
+//@ callrule delta_handlers_fire_when_due in (*EpochTimers).UpdateTime
+//@   property C40
+//@   callee dynamic:deltaHandler.tick
+//@   pureeffect
+//@   requires [sub_epoch_deadline_reached_and_not_fired_since_reset] !old(et.done) && !dh.done && dh.nextTickAt <= curr
+
+//@ func (*EpochTimers).UpdateTime
+//@   property C40
+//@   mode bv
+//@   valid et != nil
+//@   ensures [fires_epoch_tick_at_first_time_reaching_the_end] !old(et.done) && old(et.nextTickAt) <= curr ==> et.done
+//@   ensures [does_not_fire_early] !old(et.done) && old(et.nextTickAt) > curr ==> !et.done
+//@   ensures [stays_done_until_reset] old(et.done) ==> et.done
+//@   ensures [schedule_unchanged] et.nextTickAt == old(et.nextTickAt)
+
+//@ func (*EpochTimers).Reset
+//@   property C40
+//@   mode bv
+//@   opt abstract=muldiv
+//@   valid et != nil
+//@   loop 1 invariant forall k int :: 0 <= k && k <= rangeindex ==> et.deltaHandlers[k] != nil ==> (!et.deltaHandlers[k].done && et.deltaHandlers[k].nextTickAt == lastTick + dur * et.deltaHandlers[k].mul / et.deltaHandlers[k].div)
+//@   ensures [epoch_end_scheduled] et.nextTickAt == lastTick + dur && !et.done
+//@   ensures [every_sub_epoch_tick_rescheduled_at_its_fraction] forall k int :: 0 <= k && k < len(et.deltaHandlers) ==> et.deltaHandlers[k] != nil ==> (!et.deltaHandlers[k].done && et.deltaHandlers[k].nextTickAt == lastTick + dur * et.deltaHandlers[k].mul / et.deltaHandlers[k].div)
